@@ -223,6 +223,10 @@ pub struct H2Req {
     /// header; the stream simply ends), as a client streaming an upload does
     #[serde(default)]
     pub no_length: bool,
+    /// send the body as DATA frames of these sizes (0 = an empty frame), the
+    /// remainder as a last frame; empty = one frame
+    #[serde(default)]
+    pub frames: Vec<usize>,
 }
 
 #[derive(Clone, Debug, Serialize, Deserialize, PartialEq)]
